@@ -112,7 +112,7 @@ def make_jobs(ctx):
                         funcs=["w2c2_base.h:" + fn], replay=gen_replay, bounded="memory object of 12 bytes, lengths <= 12 (functions are uniform in the object size)",
                         info=dict(layer="R")))
     jobs += g_probes(ctx)
-    jobs += expr_jobs(ctx, ["load", "store"])
+    jobs += expr_jobs(ctx, ["load", "store", "memory_size", "memory_grow"])
     return jobs
 
 
